@@ -333,6 +333,36 @@ pub fn visit(st: &St, b: &Base, sc: &mut CaseCx) {
   for &i in &st.touched {
     check_touched(sc, i, &st.inst[i], b, &st.path);
   }
+  // clones evolve independently - also with respect to evaluations: evaluate tag t on instance j and
+  // IMMEDIATELY afterwards on instance i (the touched one, and the other way round); each answers per its own model
+  for &i in &st.touched {
+    for j in 0..st.inst.len() {
+      if i == j {
+        continue;
+      }
+      for (a, c) in [(j, i), (i, j)] {
+        for (ti, &t) in TAGS.iter().enumerate() {
+          let _ = guard(|| st.inst[a].s.eval(&b.points[0], t, false).is_ok());
+          let got = guard(|| st.inst[c].s.eval(&b.points[0], t, false).ok().map(|e| *e.output.as_bytes()));
+          sc.eval();
+          let should = REGISTERED.contains(&t) && !st.inst[c].punct.contains(&t);
+          let want = if should { b.baseline[ti][0] } else { None };
+          match got {
+            Ok(g) if g == want => sc.count("cross_instance_probes", 1),
+            Ok(g) => {
+              sc.viol(
+                "C14/instances-not-independent",
+                format!("tag {} was evaluated on instance {} and immediately afterwards on instance {}: instance {} {} although in its own key history the tag is {}", t, a, c, c, if g.is_some() { "answers" } else { "refuses" }, if should { "registered and unpunctured" } else { "punctured or unregistered" }),
+                json!({"history": path_json(&st.path), "evaluate_on": a, "then_on": c, "tag": t}),
+              );
+              return;
+            }
+            Err(p) => sc.viol("C14/eval-panicked", p, json!({"history": path_json(&st.path)})),
+          }
+        }
+      }
+    }
+  }
 }
 
 fn canon_exports(st: &St) -> Vec<Option<Vec<(Vec<bool>, Vec<u8>)>>> {
@@ -459,7 +489,7 @@ pub fn spec() -> PropSpec {
     checks: vec![
       Check {
         name: "histories-bfs",
-        rule: "explicit-state BFS: state = up to 3 real Server instances + model; every enabled action executed on the real objects (refused double punctures included); digest = per-instance punctured sets in instance order, merge check on observable + canonical exported key material; invariant in every state and for every instance: eval answers iff registered and unpunctured in that key's history, answers equal the original server's, public key unchanged; for the instance touched by the action: verifiable answers verify against the original public key and export-now/import-into-fresh gives an indistinguishable server that re-exports the same bytes; for EVERY transition and every tag: evaluate the tag on the instance right before the action and first thing after it (evaluations must not leave state behind)",
+        rule: "explicit-state BFS: state = up to 3 real Server instances + model; every enabled action executed on the real objects (refused double punctures included); digest = per-instance punctured sets in instance order, merge check on observable + canonical exported key material; invariant in every state and for every instance: eval answers iff registered and unpunctured in that key's history, answers equal the original server's, public key unchanged; for the instance touched by the action: verifiable answers verify against the original public key and export-now/import-into-fresh gives an indistinguishable server that re-exports the same bytes; for EVERY transition and every tag: evaluate the tag on the instance right before the action and first thing after it (evaluations must not leave state behind); for the touched instance and every other instance: evaluate a tag on one and immediately on the other, both ways (clones share nothing)",
         gen: |tier| vec![json!({"depth": if tier.thorough() { 7 } else { 5 }})],
         run: run_bfs,
         min_counts: &[("states", 1000), ("refused_double_punctures", 100), ("export_import_checks", 1000), ("merges", 100), ("traces_validated", 4), ("interleaved_probes", 10_000)],
